@@ -6,6 +6,7 @@ namespace Edzed.Persist
 
 structure DState where
   circ : Circ := { blocks := [], store := [] }
+  faults : Faults := {}          -- which storage operations raise at the moment
   deriving Inhabited
 
 def splitF (s : String) (sep : String) : List String :=
@@ -188,9 +189,16 @@ def hasLink (c : Circ) (i : Nat) : Bool :=
   | none => false
 
 /-- circuits without links start with `Circ.start`, circuits with links with `Circ.startL` (mode ok only) -/
-def startAny (c : Circ) (cal : Val → Option Bool) (now : Nat) (m : StartMode) : Option Circ :=
-  if c.blocks.all (·.link.isNone) then some (c.start cal now m)
+def startAny (c : Circ) (f : Faults) (cal : Val → Option Bool) (now : Nat) (m : StartMode) : Option Circ :=
+  if f != {} then
+    -- a storage whose reads / purge fail: mode ok, no links, writes work
+    (if m == .ok && c.blocks.all (·.link.isNone) && !f.write then some (c.startF f cal now) else none)
+  else if c.blocks.all (·.link.isNone) then some (c.start cal now m)
   else if m == .ok then some (c.startL cal now) else none
+
+def renderResF : ResF → String
+  | .res r => renderRes r
+  | .saveError => "err StorageError"
 
 def handle (s : DState) : List String → DState × String
   | ["reset"] => ({ circ := { blocks := [], store := [] } }, "ok")
@@ -212,8 +220,8 @@ def handle (s : DState) : List String → DState × String
     match now.toNat?, m, parseCal cal with
     | some now, some m, some cal =>
       if s.circ.phase != .idle then (s, "bad-op") else
-      match startAny s.circ cal now m with
-      | some c => ({ circ := c }, renderCirc c)
+      match startAny s.circ s.faults cal now m with
+      | some c => ({ s with circ := c }, renderCirc c)
       | none => (s, "err not-modelled")
     | _, _, _ => (s, "bad-op")
   | ["startstop", now, mode, cal, tstop] =>
@@ -222,46 +230,79 @@ def handle (s : DState) : List String → DState × String
     match now.toNat?, m, parseCal cal, tstop.toNat? with
     | some now, some m, some cal, some tstop =>
       if s.circ.phase != .idle then (s, "bad-op") else
-      match startAny s.circ cal now m with
-      | some c0 => let c := c0.stop tstop; ({ circ := c }, renderCirc c)
+      match startAny s.circ s.faults cal now m with
+      | some c0 =>
+        -- (the stop of a failed start happens on the same storage: with its faults, if any)
+        let c := if s.faults != {} then
+            (match c0.stopBeginF s.faults tstop with
+             | (c1, true) => c1
+             | (c1, false) => c1.stopEnd tstop true)
+          else c0.stop tstop
+        ({ s with circ := c }, renderCirc c)
       | none => (s, "err not-modelled")
     | _, _, _, _ => (s, "bad-op")
   | ["ev", i, name, arg, cal] =>
     match i.toNat?, parseEv name arg, parseCal cal with
     | some i, some ev, some cal =>
       if hasLink s.circ i then (s, "err not-modelled") else      -- (an output change would send an event)
+      if s.faults != {} then
+        match s.circ.eventF s.faults cal i ev with
+        | some (c, r) => ({ s with circ := c }, renderResF r ++ " " ++ renderCirc c)
+        | none => (s, "err not-possible")
+      else
       match s.circ.event cal i ev with
-      | some (c, r) => ({ circ := c }, renderRes r ++ " " ++ renderCirc c)
+      | some (c, r) => ({ s with circ := c }, renderRes r ++ " " ++ renderCirc c)
       | none => (s, "err not-possible")
     | _, _, _ => (s, "bad-op")
   | ["fire", i, cal] =>
     match i.toNat?, parseCal cal with
     | some i, some cal =>
+      if s.faults != {} then
+        match s.circ.fireF s.faults cal i with
+        | some (c, r) => ({ s with circ := c }, s!"at={c.now} " ++ renderResF r ++ " " ++ renderCirc c)
+        | none => (s, "err not-possible")
+      else
       match s.circ.fire cal i with
-      | some (c, r) => ({ circ := c }, s!"at={c.now} " ++ renderRes r ++ " " ++ renderCirc c)
+      | some (c, r) => ({ s with circ := c }, s!"at={c.now} " ++ renderRes r ++ " " ++ renderCirc c)
       | none => (s, "err not-possible")
     | _, _ => (s, "bad-op")
   | ["adv", t] =>
     match t.toNat? with
     | some t => match s.circ.advance t with
-      | some c => ({ circ := c }, renderCirc c)
+      | some c => ({ s with circ := c }, renderCirc c)
       | none => (s, "err not-possible")
     | none => (s, "bad-op")
   | ["stopbegin", t] =>
     match t.toNat? with
     | some t =>
       if s.circ.phase != .running && s.circ.phase != .aborted && s.circ.phase != .failed then (s, "err not-possible")
-      else let c := s.circ.stopBegin t; ({ circ := c }, renderCirc c)
+      else let c := s.circ.stopBegin t; ({ s with circ := c }, renderCirc c)
     | none => (s, "bad-op")
   | ["stopend", t, k] =>
     match t.toNat?, parseBit k with
     | some t, some k =>
       if s.circ.phase != .stopping && s.circ.phase != .stoppingF then (s, "err not-possible")
-      else let c := s.circ.stopEnd t k; ({ circ := c }, renderCirc c)
+      else let c := s.circ.stopEnd t k; ({ s with circ := c }, renderCirc c)
     | _, _ => (s, "bad-op")
+  | ["fault", w, d, i, rd] =>
+    -- `rd`: the keys whose read raises, hex, `&`-separated
+    match parseBit w, parseBit d, parseBit i, (splitF rd "&").mapM hexDecode with
+    | some w, some d, some i, some rd =>
+      ({ s with faults := { write := w, remove := d, iter := i, read := rd } }, "ok")
+    | _, _, _, _ => (s, "bad-op")
+  | ["stopf", t] =>
+    -- a stop (clean-up without delay) on the storage with the current faults
+    match t.toNat? with
+    | some t =>
+      if s.circ.phase != .running && s.circ.phase != .aborted && s.circ.phase != .failed then (s, "err not-possible")
+      else
+        let (c1, raised) := s.circ.stopBeginF s.faults t
+        if raised then ({ s with circ := c1 }, "raised " ++ renderCirc c1)
+        else let c := c1.stopEnd t true; ({ s with circ := c }, "done " ++ renderCirc c)
+    | none => (s, "bad-op")
   | ["stop", t] =>
     match t.toNat? with
-    | some t => let c := s.circ.stop t; ({ circ := c }, renderCirc c)
+    | some t => let c := s.circ.stop t; ({ s with circ := c }, renderCirc c)
     | none => (s, "bad-op")
   | _ => (s, "bad-op")
 
